@@ -359,6 +359,21 @@ class World:
                 # not our property: keep tracking it as an (unexpectedly) live object
         if self.on("C10") or self.on("C01") or self.on("C09"):
             self.check_frame(op)
+        if self.on("C10") and exact:
+            # last clause: registry membership of an existing node may only change as specified for detach / replace
+            # (the model flags are only touched by detach, detach_self and a successful replace on that very node)
+            for o in self.last_reach:
+                i = self.inf(o)
+                if i.born == self.step_no:
+                    continue
+                now = ASTNode.get_any(o.id) is o
+                if now != i.reg:
+                    raise self.viol(
+                        "C10.3 registry-membership-changed",
+                        f"C10.3:{op['op']}:{'lost' if i.reg else 'gained'}",
+                        f"{op['op']} {'removed' if i.reg else 'added'} pre-existing node {i.name} ({i.cls}) {'from' if i.reg else 'to'} the registry although it was not detached / replaced by this call",
+                        op=op["op"],
+                    )
         if self.on("C03"):
             self.check_registry(op, outcome, exact)
         if self.on("C01"):
@@ -1332,8 +1347,13 @@ class Gen:
         ref = self.pick_ref(actor, root_bias=0.7)
         if ref is None:
             return None
-        what = r.choice(["eq", "rich", "walk", "tree", "xpath", "match", "accessors", "ser", "visit"])
+        what = r.choice(["eq", "rich", "walk", "tree", "xpath", "match", "accessors", "ser", "visit", "ser_opts"])
+        if self.cfg["prop"] == "C04":
+            what = "ser_opts"
         op: dict[str, Any] = {"op": "obs", "n": ref, "what": what}
+        if what == "ser_opts":
+            op["optset"] = [k for k in ("skip", "sort", "test", "explorer", "idx") if r.random() < 0.4]
+            op["fmt"] = r.choice(list(FORMATS))
         if what == "eq":
             op["m"] = self.pick_ref(actor) or ref
         if what == "xpath":
@@ -1433,7 +1453,7 @@ BASE_WEIGHTS = {
     "C01": {"construct": 6, "twin": 6, "drop": 2, "detach_self": 1.5, "detach": 1, "duplicate": 2, "dc_replace": 3, "replace": 2,
             "ser": 1, "deser": 1, "peer_cid": 1.5, "transform": 0.5},
     "C04": {"construct": 5, "twin": 3, "drop": 2, "crash": 3, "detach_self": 1.5, "detach": 1, "duplicate": 1, "dc_replace": 1, "replace": 1.5,
-            "ser": 6, "deser": 7, "peer_roundtrip": 1.0},
+            "ser": 6, "deser": 7, "peer_roundtrip": 1.0, "obs": 1.0},
     "C09": {"construct": 5, "twin": 2, "drop": 2, "detach_self": 1.5, "detach": 1, "duplicate": 1, "replace": 1, "transform": 8, "obs": 0.5},
 }
 
@@ -1450,7 +1470,9 @@ def make_config(rseed: int, prop: str, tier: str, faults: bool) -> dict[str, Any
         strpool = r.sample([s for s in U.STR_POOL if set(":=()[]@<>") & set(s)] + ["1", "2", "3"], min(5, nstr + 1))
     if prop == "C01" and r.random() < 0.3:
         # collision kit: strings that move a separator run from one field into its neighbour
-        strpool = ["1):b=<class 'str'>(2", "3", "1", "2):b=<class 'str'>(3"] + r.sample(U.STR_POOL, 1)
+        e = r.choice(["", "", "\\", "\\\\", ")", "\\)"])  # optionally with the digest's own escape characters
+        infix = "):b=<class 'str'>("
+        strpool = ["1" + infix + "2" + e, "3", "1" + e, "2" + infix + "3"] + r.sample(U.STR_POOL, 1)
     leafs = ["LeafA", "LeafB", "LeafA2", "Meta"]
     extra = ["Vals", "Carrier", "Boom", "Serial", "Upper", "Lit", "Located", "Typed"]
     if prop in ("C01",):
@@ -2093,6 +2115,32 @@ def op_obs(self: World, op: dict[str, Any]) -> str:
         elif what == "ser":
             for fmt in FORMATS:
                 serialize(a, fmt, ser_opts(op.get("opts")))
+        elif what == "ser_opts":
+            from pyoak.node import AST_SERIALIZE_DIALECT_KEY, ASTSerializationDialects
+            from pyoak.serialize import SerializationOption
+
+            so: dict[str, Any] = {}
+            for k in op.get("optset", []):
+                if k == "skip":
+                    so[SerializationOption.SKIP_CLASS] = True
+                elif k == "sort":
+                    so[SerializationOption.SORT_KEYS] = True
+                elif k == "test":
+                    so[AST_SERIALIZE_DIALECT_KEY] = ASTSerializationDialects.AST_TEST
+                elif k == "explorer":
+                    so[AST_SERIALIZE_DIALECT_KEY] = ASTSerializationDialects.AST_EXPLORER
+                elif k == "idx":
+                    so[SOURCE_OPTIMIZED_SERIALIZATION_KEY] = True
+            fmt = op.get("fmt", "dict")
+            if fmt == "dict":
+                a.as_dict(serialization_options=so)
+            elif fmt == "json":
+                a.to_json(serialization_options=so)
+            elif fmt == "msgpack":
+                a.to_msgpck(serialization_options=so)
+            else:
+                a.to_yaml(serialization_options=so)
+            self.stats.probes["ser_with_option_subset"] += 1
         elif what == "visit":
             v = make_visitor(op.get("rules", {"LeafA": "keep"}), op.get("strict", False), self, transform=False)
             for x in walk(a)[:12]:
